@@ -87,6 +87,9 @@ def cases(tier, seed):
             for noise, mode in itertools.product(NOISE_Q if tier == "quick" else NOISE_T, RMSMODES):
                 yield "abc", dict(seq=[ALPHABET[k] for k in seq], noise=noise, rms=mode, docov=bool(n == 1 or i % 5 == 0))
                 i += 1
+    # sources of opposite sign close enough to share ONE island (islands are found on |signal-to-noise|)
+    for sep in (3.0, 4.0, 5.0, 6.0):
+        yield "mixed_island", dict(sep=sep)
 
 
 def header():
@@ -287,7 +290,40 @@ def clause_c(none, ctx, sig, which):
                       "c_nonempty|" + sig)
 
 
+def ev_mixed_island(case, ctx):
+    """a +1.0 and a -0.8 beam-shaped source `sep` pixels apart on one row: one island with pixels of both signs"""
+    d = os.environ["VERIF_SCRATCH"]
+    hdr = header()
+    sep = case["sep"]
+    pt = lambda rr, cc, peak: skygauss.source_at_pixel(hdr, rr, cc, peak, 4.0, 3.0, 20.0)
+    img = skygauss.render(hdr, SHAPE, [pt(60.25, 60.5 - sep / 2, 1.0), pt(60.25, 60.5 + sep / 2, -0.8)])
+    img = np.round(img * Q) / Q
+    sig = "sep=%g" % sep
+    res = {}
+    for sign in (1.0, -1.0):
+        f = os.path.join(d, "c13_mixed.fits")
+        scenes.write_image(f, hdr, sign * img)
+        try:
+            res[sign] = run(f, dict(rms=SIGMA, bkg=0.0), False, False, False)
+        except Exception as e:
+            ctx.violation("finder raised %r on a mixed-sign island (%s)" % (e, sig), "raise_mixed|" + sig)
+            return
+        finally:
+            os.remove(f)
+    ctx.count("mixed_island")
+    ctx.nontrivial("mixed:" + sig)
+    P, N = res[1.0], res[-1.0]
+    key = lambda c: sorted((round(s["ra"], 6), round(s["dec"], 6), round(abs(s["peak_flux"]), 4), 1 if s["peak_flux"] > 0 else -1) for s in c)
+    mirror = [(a, b, c, -sg) for (a, b, c, sg) in key(N)]
+    ctx.outcome("mixed_island:%d/%d" % (len(P), len(N)))
+    if key(P) != sorted(mirror):
+        ctx.violation("an island holding a +1.0 and a -0.8 source %g px apart: run(I) gives %s but run(-I) gives %s - not mirror images "
+                      "(the negative half of a mixed-sign island is never catalogued)" % (sep, brief(P), brief(N)), "mixed_sign_island|" + sig)
+
+
 def evaluate(clause, case, ctx):
+    if clause == "mixed_island":
+        return ev_mixed_island(case, ctx)
     d = os.environ["VERIF_SCRATCH"]
     hdr, img, bkg, rms = build_scene(case, ctx.seed)
     sig = "seq=%s,noise=%s,rms=%s,docov=%s" % ("+".join(case["seq"]), case["noise"], case["rms"], case["docov"])
